@@ -74,6 +74,23 @@ def tree_diff(a, b, limit=6):
 # ---------------------------------------------------------------------------------------------
 # C13: deterministic compilation
 
+COMPANION = """type Ca;
+pred cp(Ca, Ca);
+pred cq(Ca);
+rule {
+    if cp(x, y);
+    then cq(x);
+}
+rule {
+    if cq(x);
+    then cp(x, x);
+}
+rule named_one {
+    if cp(x, x);
+    then cq(x);
+}
+"""
+
 
 def c13_task(task):
     out = _empty_out()
@@ -84,10 +101,13 @@ def c13_task(task):
         return out
     text = th.get("text") or emit(th)
     name = th["name"]
+    rng = random.Random(sha(str(task["spec"]), str(task["seed"])))
+    if task.get("anonymous"):
+        # anonymous rules are named by the compiler itself: strip the names of a random subset
+        text = re.sub(r"(?m)^rule [a-z_]+ \{", lambda m: "rule {" if rng.random() < 0.7 else m.group(0), text)
     base = tempfile.mkdtemp(prefix="c13-", dir=WORK)
     try:
         variants = []
-        rng = random.Random(sha(str(task["spec"]), str(task["seed"])))
 
         def mk(sub):
             d = os.path.join(base, sub)
@@ -119,16 +139,40 @@ def c13_task(task):
         variants.append(("module", m0, ["src", "out"], env_with(), ()))
         m1 = mk("m1/x y")
         variants.append(("module-abs-space-in-path", m1, [os.path.join(m1, "src"), os.path.join(m1, "out")], env_with({"RAYON_NUM_THREADS": "3"}), ()))
+        # the same theory compiled by one compiler process together with other theories of the same
+        # source directory (before and after it in any directory order), and regenerated on its own
+        # after a full build of that directory
+        def companions(d):
+            for cname in ("aa_companion", "zz_companion", "m_companion"):
+                with open(os.path.join(d, "src", cname + ".eql"), "w") as f:
+                    f.write(COMPANION)
+        c0 = mk("h")
+        companions(c0)
+        variants.append(("with-companion-theories", c0, comp_args(c0, False), env_with({"RAYON_NUM_THREADS": "4"}), ()))
+        c1 = mk("i")
+        companions(c1)
+        variants.append(("module-with-companion-theories", c1, ["src", "out"], env_with(), ()))
+        c2 = mk("j")
+        companions(c2)
+        variants.append(("module-regenerated-after-full-build", c2, ["src", "out"], env_with(), ()))
         results = []
         for vname, d, args, env, wrapper in variants:
             rc, so, se = run_cli(args, d, env=env, wrapper=wrapper)
             if rc is None:
                 _inc(out, "compiler-timeout")
                 return out
+            if vname == "module-regenerated-after-full-build" and rc == 0:
+                # touch only this theory (same text, digest line removed) and build again
+                mp = os.path.join(d, "out", name + ".eql.rs")
+                if os.path.exists(mp):
+                    os.unlink(mp)
+                rc, so, se = run_cli(args, d, env=env, wrapper=wrapper)
             files = {}
             for sub in ("out", "comp"):
                 if os.path.isdir(os.path.join(d, sub)):
                     for k, v in tree(os.path.join(d, sub)).items():
+                        if "_companion" in k:
+                            continue  # only the theory under test is compared
                         files[sub + "/" + k] = v
             results.append((vname, rc, files))
         comp = [r for r in results if not r[0].startswith("module")]
@@ -174,11 +218,13 @@ def c13(tier, replay=None):
     res.rule = ("one evaluation = one pair of compilations of the same source text and theory file name compared byte-wise over every generated "
                 "file (module, component sources, stub-compiled libraries, theory and component digests): relative vs absolute and deeper "
                 "directories, RAYON_NUM_THREADS 1/2/16 with random per-component rustc delays (permuted completion order), pinned to one CPU, "
-                "ASLR off + environment noise, plain repeat; module builds likewise; non-trivial = programs with >= 2 components")
+                "ASLR off + environment noise, plain repeat, compiled by one process together with three other theories of the same source "
+                "directory, regenerated on its own after a full build of that directory; module builds likewise; in every second program a random "
+                "subset of the rules is anonymous (named by the compiler); non-trivial = programs with >= 2 components")
     res.assumptions = ["component libraries are produced by a deterministic stub rustc (real rustc output is outside the statement)"]
     q = tier == "quick"
-    specs = specs_for(tier, 220, 3000, PROFILES_ALL)
-    aggregate(res, pmap(c13_task, [{"spec": s, "seed": seed()} for s in specs]))
+    specs = specs_for(tier, 170, 3000, PROFILES_ALL)
+    aggregate(res, pmap(c13_task, [{"spec": s, "seed": seed(), "anonymous": i % 2 == 0} for i, s in enumerate(specs)]))
     return res.finish()
 
 
